@@ -99,7 +99,19 @@ impl Gen<'_> {
         if depth < 2 {
             match self.rng.random_range(0..6) {
                 0 | 1 => { let mut og = vec![self.tp()]; if self.rng.random_bool(0.4) { if let Some(f) = self.filter() { og.push(f); } } g.push(json!({"k": "opt", "g": og})); }
-                2 => { let a = self.group(depth + 1); let b = self.group(depth + 1); g.push(json!({"k": "union", "a": a, "b": b})); }
+                2 => {
+                    if self.rng.random_bool(0.4) {
+                        // both branches bind the same two variables, met in opposite order
+                        let x = self.var(0, 0.3);
+                        let y = self.var(0, 0.9);
+                        let a = json!([{"k": "tp", "s": x, "p": {"c": 11}, "o": y}]);
+                        let mut b = vec![json!({"k": "tp", "s": y, "p": {"c": 11}, "o": x})];
+                        if self.rng.random_bool(0.3) { b.push(self.tp()); }
+                        g.push(json!({"k": "union", "a": a, "b": b}));
+                    } else {
+                        let a = self.group(depth + 1); let b = self.group(depth + 1); g.push(json!({"k": "union", "a": a, "b": b}));
+                    }
+                }
                 _ => {}
             }
         }
